@@ -26,6 +26,15 @@ def callers_by_name(prog, name, skip_modules=('mistral.db.',)):
 
 
 def run(ctx):
+    _run(ctx)
+    r5 = ctx.rule('R5', 'resume recomputes the commands of every completed '
+                  'task that was not dispatched and restarts the tasks '
+                  'left IDLE (shared with C01.R14)', 'DT + AGREE')
+    from mstatic.rules import cmdcalc
+    cmdcalc.next_commands(ctx, r5)
+
+
+def _run(ctx):
     prog, sd = ctx.prog, ctx.sd
     S = sd.consts
     completed = sd.pred_set('is_completed')
